@@ -468,6 +468,12 @@ __flatcc_define_json_printer_scalar(int64, int64_t)
 __flatcc_define_json_printer_scalar(float, float)
 __flatcc_define_json_printer_scalar(double, double)
 
+/* Declared in the header and called by generated printers of `enum : bool`. */
+void flatcc_json_printer_bool(flatcc_json_printer_t *ctx, int v)
+{
+    ctx->p += print_bool(v, ctx->p);
+}
+
 void flatcc_json_printer_enum(flatcc_json_printer_t *ctx, const char *symbol, size_t len)
 {
     print_symbol(ctx, symbol, len);
